@@ -149,12 +149,29 @@ func runC01(c *core.Ctx) {
 								var exe *ggql.Executable
 								var perr error
 								if pi := core.Safe(func() { exe, perr = root.ParseExecutableString(text) }); pi == nil && perr == nil {
-									for round := 1; round <= 2 && ok; round++ {
+									// resolved with these variables, then with every OTHER variable map of the document, then with these again
+									// (a value a request supplies must not linger as the default of the next one)
+									seq := []map[string]interface{}{vars}
+									for _, vm := range world.VarMaps(d) {
+										if fmt.Sprint(vm) != fmt.Sprint(vars) {
+											seq = append(seq, vm)
+										}
+									}
+									seq = append(seq, vars)
+									for round, rv := range seq {
+										if !ok {
+											break
+										}
+										round, rv := round+1, rv
+										exr := ex
+										if fmt.Sprint(rv) != fmt.Sprint(vars) {
+											exr = world.RefExec(s, g, d, op, rv, nil, world.RefOpts{})
+										}
 										run.Log, run.Args = nil, nil
 										o3 := &world.Obs{}
 										var res map[string]interface{}
 										var rerr error
-										o3.Panic = core.Safe(func() { res, rerr = root.ResolveExecutable(exe, op, vars) })
+										o3.Panic = core.Safe(func() { res, rerr = root.ResolveExecutable(exe, op, rv) })
 										if o3.Panic == nil {
 											if res == nil {
 												res = map[string]interface{}{"data": nil}
@@ -164,7 +181,17 @@ func runC01(c *core.Ctx) {
 											}
 											o3.FillFrom(res, run)
 										}
-										ok = again(fmt.Sprintf("resolution %d of one parsed executable on the same root", round), o3)
+										if k3, m3 := compareExpect(s, g, exr, o3, nc.Cfg.Strat, true); k3 != "" {
+											c.Outcome("repeat-" + k3)
+											a3 := map[string]string{"strategy": nc.Cfg.Strat.String(), "model": "none", "repeat": "prepared-executable"}
+											if k3 == "panic" {
+												a3["site"], a3["class"] = o3.Panic.Site, o3.Panic.Class
+											}
+											c.Violation(k3, a3, worldCase{Config: nc.Name, Graph: gi, Query: text, Op: op, Vars: rv,
+												Expected: map[string]interface{}{"rejected": exr.Rejected, "data": exr.Data, "err_paths": exr.ErrPaths}, Observed: o3,
+												Diff: fmt.Sprintf("resolution %d of one parsed executable on the same root (variable maps in order: %v): %s", round, seq, m3)})
+											ok = false
+										}
 									}
 								}
 							}
